@@ -153,6 +153,9 @@ type Worker struct {
 	prog *Program
 	i    *interpreter
 	Sol  *smt.Solver
+	Cross *smt.Solver // optional second solver re-deciding every discharged assertion
+	CrossDisagree int
+	CrossChecked int
 	InitErr string
 }
 
@@ -213,7 +216,12 @@ func NewWorker(p *Program, solverKind string, timeoutMs, seed int) *Worker {
 	return w
 }
 
-func (w *Worker) Close() { w.Sol.Close() }
+func (w *Worker) Close() {
+	w.Sol.Close()
+	if w.Cross != nil {
+		w.Cross.Close()
+	}
+}
 
 func (w *Worker) newPathState(prefix []Decision, lim Limits, sample bool) *pathState {
 	ctx := smt.NewCtx()
